@@ -13,12 +13,12 @@ type Value interface{}
 
 // Obj is one allocation: size bytes, covered by non-overlapping cells; bytes outside every cell are zero.
 type Obj struct {
-	id    int
-	size  int
-	vals  []Value // dense: vals[o] != nil iff a cell starts at byte o
-	csz   []uint8 // size of the cell starting at o, 0 if none
-	ro    bool    // write-protected (vsym.Freeze)
-	label string
+	id      int
+	size    int
+	vals    []Value // dense: vals[o] != nil iff a cell starts at byte o
+	csz     []uint8 // size of the cell starting at o, 0 if none
+	ro      bool    // write-protected (vsym.Freeze)
+	label   string
 	lazyLen *Term // lazily sized buffer: its real size in bytes (symbolic); storage grows on demand
 }
 
@@ -39,8 +39,8 @@ type SymPtr struct {
 
 type Slice struct {
 	obj      *Obj
-	off      int // bytes
-	len, cap int // elements
+	off      int   // bytes
+	len, cap int   // elements
 	symLen   *Term // symbolic length: length-only slices (C14, no backing store) and lazily sized buffers
 	lazy     bool  // lazily sized buffer: len = cap = symLen, backing object grows on demand (zero-filled)
 }
